@@ -8,7 +8,7 @@ From ClapModel Require Import Base.Bytes Base.Machine Base.Utf8 Lex.OsStrExtMode
 From ClapModel Require Import Parse.Cmd Parse.Build Parse.Valid Parse.Matcher Parse.Errors Parse.Validator Parse.Parser.
 From ClapModel Require Import ParseProofs.Safe ParseProofs.Invariant ParseProofs.Totality ParseProofs.TotalityMain
   ParseProofs.Sources ParseProofs.Spelling ParseProofs.Dispatch ParseProofs.Provenance
-  ParseProofs.Escape ParseProofs.EscapeWalk ParseProofs.EscapeStore ParseProofs.EscapeSub ParseProofs.EscapeLevel ParseProofs.EscapeChain ParseProofs.EscapeDisplay.
+  ParseProofs.Escape ParseProofs.EscapeWalk ParseProofs.EscapeStore ParseProofs.EscapeSub ParseProofs.EscapeLevel ParseProofs.EscapeChain ParseProofs.EscapeDisplay ParseProofs.EscapeGlobals.
 From Coq Require Import ZArith Lia List Bool.
 From RecordUpdate Require Import RecordSet.
 Import RecordSetNotations.
@@ -84,7 +84,7 @@ Proof.
         rewrite Hs4, Hs3.
         pose proof (resolve_pending_sub c (mt_sub (mt stp)) stp eq_refl) as Hk. rewrite Hr in Hk. cbn in Hk.
         unfold Dispatch.S_ in Hk. rewrite Hk, (chain_sub c Hch _ _ _ _ Htr EL). exact Hsub.
-      * eapply chain_filled_mono; [|exact Hcf]. intros a e Hin Hy. cbv beta in *.
+      * eapply chain_filled_mono; [|exact Hcf]. intros a e Hin _ Hy. cbv beta in *.
         eapply phases_keep; [exact Hnone|exact He|exact Hd|exact (proj2 Hst a Hin)|exact Hy].
   - right. left. exists n, k, v, s1, r. reflexivity.
   - right. right. exists tk, r, s1. reflexivity.
@@ -204,7 +204,8 @@ Fixpoint delivered (fuel : nat) (c : cmd) (t : list bytes) (m : matches) : Prop 
        /\ (chainc c = true ->
            ms_sub m = None /\ exists x pc, chain_filled c (fun y => fm_get y (ms_args m)) pc (x ++ t)))
       \/ (exists name sc sm, build_subcommand c name = Some sc /\ ms_sub m = Some (c_name sc, sm) /\ delivered f sc t sm)
-      \/ (exists name vals, ms_sub m = Some (name, Matches [(ext_id, ext_marg (vals ++ dashdash :: t))] None))
+      \/ (exists name vals sm, ms_sub m = Some (name, sm) /\ ms_sub sm = None /\
+                               fm_get ext_id (ms_args sm) = Some (ext_marg (vals ++ dashdash :: t)))
   end.
 
 Lemma build_found c n sc0 : find_subcommand c n = Some sc0 -> build_subcommand c (c_name sc0) <> None.
@@ -251,7 +252,8 @@ Proof.
     unfold parsed_of in Hparsed. change (mkL PSValuesDone 1 false false) with ls0 in Hparsed. rewrite EL in Hparsed.
     cbn [rbind] in Hparsed.
     pose proof (external_verbatim c tk (r ++ dashdash :: t) st1) as Hx. rewrite Hparsed in Hx. cbn [holds] in Hx.
-    cbn [delivered]. right. right. exists tk, r. cbn [into_inner ms_sub]. rewrite Hk, Hx. reflexivity.
+    cbn [delivered]. right. right. exists tk, r, (Matches [(ext_id, ext_marg (r ++ dashdash :: t))] None).
+    cbn [into_inner ms_sub]. rewrite Hk, Hx. split; [reflexivity|]. split; reflexivity.
 Qed.
 
 (** (4) over the tree: two successful parses of the same prefix with different tails agree, at the level
@@ -760,3 +762,114 @@ Proof.
   split; [vm_compute; reflexivity|]. split; [vm_compute; reflexivity|]. split; [reflexivity|].
   split; [eexists; vm_compute; reflexivity|]. eexists. split; [vm_compute; reflexivity|reflexivity].
 Qed.
+
+(** * Global arguments: [delivered] survives [fill_in_global_values] when no positional (and not the
+    external-subcommand slot) has the id of a global argument *)
+Fixpoint pos_free (gl : list id) (f : nat) (c : cmd) : Prop :=
+  match f with
+  | O => True
+  | S f' => (forall a, In a (c_args c) -> a_index a <> None -> mem_id (a_id a) gl = false)
+            /\ mem_id ext_id gl = false
+            /\ forall name sc, build_subcommand c name = Some sc -> pos_free gl f' sc
+  end.
+
+Fixpoint pos_freeb (gl : list id) (f : nat) (c : cmd) : bool :=
+  match f with
+  | O => true
+  | S f' => forallb (fun a => if is_some (a_index a) then negb (mem_id (a_id a) gl) else true) (c_args c)
+            && negb (mem_id ext_id gl)
+            && forallb (fun s => match build_subcommand c (c_name s) with Some sc => pos_freeb gl f' sc | None => true end)
+                       (c_subs c)
+  end.
+
+Lemma pos_free_of gl : forall f c, pos_freeb gl f c = true -> pos_free gl f c.
+Proof.
+  induction f as [|f IH]; intros c H; [exact I|]. cbn [pos_freeb] in H.
+  apply andb_true_iff in H as [H H3]. apply andb_true_iff in H as [H1 H2]. cbn [pos_free].
+  split; [|split; [apply negb_true_iff; exact H2|]].
+  - intros a Hin Hidx. rewrite forallb_forall in H1. specialize (H1 a Hin).
+    destruct (a_index a); [|contradiction]. cbn in H1. apply negb_true_iff. exact H1.
+  - intros name sc Hbs. apply IH. pose proof Hbs as Hbs'. unfold build_subcommand in Hbs'.
+    destruct (List.find (fun s => beq (c_name s) name) (c_subs c)) as [s0|] eqn:Ef; [|discriminate].
+    apply List.find_some in Ef. destruct Ef as [Hin Hn]. apply beq_eq in Hn.
+    rewrite forallb_forall in H3. specialize (H3 s0 Hin). rewrite Hn, Hbs in H3. exact H3.
+Qed.
+
+Lemma delivered_sng gl : forall f c t m m', pos_free gl f c -> delivered f c t m -> sng gl m m' -> delivered f c t m'.
+Proof.
+  induction f as [|f IH]; intros c t m m' Hp Hd Hs; [destruct Hd|].
+  destruct m as [a s], m' as [a' s']. destruct Hp as (Hp & He & Hch). destruct Hs as [Hs1 Hs2].
+  cbn [delivered ms_sub ms_args] in *.
+  destruct Hd as [[D1 D2]|[(name & sc & sm & Eb & Esub & Hd)|(name & vals & sm & Esub & Hn & Hext)]].
+  - left. split.
+    + intros x Hx. destruct (D1 x Hx) as (Hnone & e & gs & early & t' & G1 & G2). subst s.
+      destruct s' as [[? ?]|]; [contradiction|]. split; [reflexivity|]. exists e, gs, early, t'. split; [|exact G2].
+      assert (Hsa : sink_arg c 1 = Some x) by (destruct Hx as [Hx|[_ Hx]]; [apply Hx|exact Hx]).
+      destruct (sink_in c _ _ Hsa) as [Hin Hidx]. rewrite (Hs1 _ (Hp x Hin Hidx)). exact G1.
+    + intros Hcc. destruct (D2 Hcc) as (Hnone & x & pc & Hcf). subst s.
+      destruct s' as [[? ?]|]; [contradiction|]. split; [reflexivity|]. exists x, pc.
+      eapply chain_filled_mono; [|exact Hcf]. intros b e Hin Hidx Hb. cbv beta in *. rewrite (Hs1 _ (Hp b Hin Hidx)). exact Hb.
+  - right. left. subst s. destruct s' as [[n' sm']|]; [|contradiction]. destruct Hs2 as [<- Hs2].
+    exists name, sc, sm'. split; [exact Eb|]. split; [reflexivity|]. exact (IH sc t sm sm' (Hch _ _ Eb) Hd Hs2).
+  - right. right. subst s. destruct s' as [[n' sm']|]; [|contradiction]. destruct Hs2 as [<- Hs2].
+    exists name, vals, sm'. split; [reflexivity|].
+    destruct sm as [sa ss], sm' as [sa' ss']. cbn [ms_sub ms_args sng] in *. destruct Hs2 as [Hq1 Hq2]. subst ss.
+    split; [destruct ss' as [[? ?]|]; [contradiction|reflexivity]|]. rewrite (Hq1 _ He). exact Hext.
+Qed.
+
+Definition tree_globals (c0 : cmd) : list id := all_globals (build_recursive (top_fuel c0) c0).
+
+(** the class of [parse_top_delivered_g]: as [esc_class], with global arguments allowed as long as no
+    positional of any level carries the id of a global argument of the tree *)
+Definition esc_class_g (c0 : cmd) : bool :=
+  esc_class0 c0 && pos_freeb (tree_globals c0) (top_fuel c0) (build_self c0).
+
+Theorem do_parse_delivered_g c0 pre t m :
+  esc_class_g c0 = true -> t <> [] ->
+  do_parse c0 (pre ++ dashdash :: t) = OOk m ->
+  delivered (top_fuel c0) (build_self c0) t m.
+Proof.
+  unfold esc_class_g. intros Hc Ht. apply andb_true_iff in Hc as [Hc Hpf].
+  destruct (esc_class0_ok c0 Hc) as (Hv & Hok & Hig).
+  unfold do_parse. rewrite Hv. cbn [negb]. fold (top_fuel c0).
+  destruct (get_matches_with (top_fuel c0) (build_self c0) (pre ++ dashdash :: t) ps_new) as [st|e st|x] eqn:Eg.
+  - intros H. injection H as <-.
+    pose proof (gmw_delivered _ _ pre t ps_new st Hok Ht eq_refl eq_refl Eg) as Hd.
+    set (m0 := into_inner (mt st)) in *.
+    set (gs := used_global_args (S (matches_depth m0)) (build_recursive (top_fuel c0) c0) m0).
+    assert (Hgs : forall g, In g gs -> mem_id g (tree_globals c0) = true).
+    { intros g Hg. apply in_mem_id. exact (used_in_all _ _ _ _ Hg). }
+    destruct (fill_spec (tree_globals c0) gs Hgs (S (matches_depth m0)) m0 []) as [_ Hs]; [intros p []|].
+    exact (delivered_sng _ _ _ _ _ _ (pos_free_of _ _ _ Hpf) Hd Hs).
+  - rewrite Hig. discriminate.
+  - destruct x; discriminate.
+Qed.
+
+Theorem parse_top_delivered_g c0 bin pre t m :
+  esc_class_g c0 = true -> is_set s_no_binary_name c0 = false -> c_bin_name c0 <> None -> t <> [] ->
+  parse_top c0 (bin :: pre ++ dashdash :: t) = OOk m ->
+  delivered (top_fuel c0) (build_self c0) t m.
+Proof.
+  intros Hc Hnb Hb Ht. unfold parse_top. rewrite Hnb. destruct (c_bin_name c0); [|contradiction].
+  apply do_parse_delivered_g; assumption.
+Qed.
+
+(** non-vacuity: a global flag on the root, inherited by the subcommand *)
+Definition g_flag : arg := (arg_new [103]) <| a_long := Some [103] |> <| a_action := Some ASetTrue |> <| a_global := true |>.
+Definition g_c0 : cmd :=
+  (cmd_new [112]) <| c_args := [g_flag; x_opt; x_pos] |> <| c_subs := [x_sub] |> <| c_bin_name := Some [112] |>.
+Definition w_g : bytes := [45; 45; 103].
+
+Example ex_class_g : esc_class_g g_c0 = true /\ esc_class g_c0 = false.
+Proof. split; vm_compute; reflexivity. Qed.
+
+(** [prog --g sub v -- --help -x]: the global flag is propagated into the subcommand's matches, the
+    subcommand's positional holds the tail *)
+Example ex_top_globals :
+  match parse_top g_c0 ([112] :: [w_g; t_sub; w_v] ++ dashdash :: [t_help; w_x]) with
+  | OOk (Matches args (Some (n, Matches sargs None))) =>
+      n = t_sub /\ opt_map m_raw (fm_get [113] sargs) = Some [[w_v; t_help; w_x]] /\
+      opt_map m_raw (fm_get [103] sargs) = Some [[s_true]] /\ opt_map m_raw (fm_get [103] args) = Some [[s_true]]
+  | _ => False
+  end.
+Proof. vm_compute. repeat split; reflexivity. Qed.
